@@ -29,6 +29,14 @@ class RequiredArgsError(Exception):
 def _required_args_error(x): return RequiredArgsError(x, 'b')
 
 
+class LambdaError(Exception):
+    """An ordinary user exception that cannot be PICKLED (it carries a lambda): the worker cannot even send it."""
+    def __init__(self, item):
+        super().__init__(item)
+        self.item = item
+        self.callback = lambda: None
+
+
 def _huge_error(x): return InjectedError((x, 'x' * 200_000))
 
 
@@ -45,7 +53,7 @@ def aliased(k, offset=0):
 
 EXC_KINDS = {'custom': InjectedError, 'ValueError': ValueError, 'AssertionError': AssertionError, 'EOFError': EOFError,
              'BrokenPipeError': BrokenPipeError, 'TypeError': TypeError, 'KeyError': KeyError,
-             'cannot-unpickle': _required_args_error, 'huge': _huge_error}
+             'cannot-unpickle': _required_args_error, 'cannot-pickle': LambdaError, 'huge': _huge_error}
 
 
 class TenTimes:
